@@ -5,7 +5,7 @@
    (a few hundred states incl. monitors) is computed and shown CLOSED under every label, so each invariant below holds
    after ANY label sequence - no depth bound. *)
 From Coq Require Import List Bool.
-Require Import GV.Gen.LifecycleRules GV.Model.Lifecycle GV.Proofs.LifecycleP.
+Require Import GV.Gen.LifecycleRules GV.Model.Lifecycle GV.Proofs.LifecycleP GV.Model.LifecycleI GV.Proofs.LifecycleIP.
 Import ListNotations.
 
 (* CONNECTED holds only with a live facade on a connected spa *)
@@ -59,6 +59,41 @@ Theorem c08_teardown_rules_exclude_each_other_across_awaits :
                                         | _, _ => false end) teardown_rules) teardown_rules = true /\
   Nat.leb 3 (List.length teardown_rules) = true.
 Proof. exact teardown_rules_exclude_each_other. Qed.
+
+(* ---------- events raised concurrently from different tasks while a client handler is suspended (Model/LifecycleI.v) ----------
+   Small-step machine: the sequence pump, one task of the connection and one user task may be inside the manager at once; each
+   runs from one delivery to its next (the client's handler may stay suspended at EVERY delivery for as long as the schedule likes)
+   and any other task may run in between; spa.disconnect() cancels the connection's tasks.  [irun] is any schedule. *)
+(* the big-step LTS above is the schedule 'resume the task that was started until it is done' - on every reachable state, for every label *)
+Theorem c08_big_step_is_one_of_the_schedules :
+  forallb (fun s => forallb (refines_at s) (Ext SPA_MAN_ENTER :: all_labels)) reach = true.
+Proof. exact big_step_refines. Qed.
+Theorem c08_interleaved_connected_implies_facade_and_spa : forall c ls s,
+  irun (ientered c) ls = Some s -> st (gs s) = CONNECTED -> fac (gs s) = true /\ spa (gs s) = true.
+Proof. intros c ls s R H. pose proof (iinv_all ii_connected all_ii_connected c ls s R) as I. unfold ii_connected in I.
+  rewrite H in I. cbn in I. apply andb_prop in I. exact I. Qed.
+Theorem c08_interleaved_ready_only_when_connected : forall c ls s, irun (ientered c) ls = Some s -> v_ready_not_connected (gs s) = false.
+Proof. intros c ls s R. pose proof (iinv_all ii_ready all_ii_ready c ls s R) as I. unfold ii_ready in I. now apply negb_true_iff in I. Qed.
+Theorem c08_interleaved_teardown_le_ready : forall c ls s, irun (ientered c) ls = Some s -> v_teardown_extra (gs s) = false.
+Proof. intros c ls s R. pose proof (iinv_all ii_teardown_le all_ii_teardown_le c ls s R) as I. unfold ii_teardown_le in I. now apply negb_true_iff in I. Qed.
+Theorem c08_interleaved_teardown_only_with_facade : forall c ls s, irun (ientered c) ls = Some s -> v_teardown_nofacade (gs s) = false.
+Proof. intros c ls s R. pose proof (iinv_all ii_teardown_fac all_ii_teardown_fac c ls s R) as I. unfold ii_teardown_fac in I. now apply negb_true_iff in I. Qed.
+Theorem c08_interleaved_sensor_matches_state : forall c ls s, irun (ientered c) ls = Some s -> v_sensor_stale (gs s) = false.
+Proof. intros c ls s R. pose proof (iinv_all ii_sensor all_ii_sensor c ls s R) as I. unfold ii_sensor in I. now apply negb_true_iff in I. Qed.
+(* whenever the pump is between phases every STARTED event has had its FINISHED event; no task ever dies inside the manager *)
+Theorem c08_interleaved_phase_always_closed : forall c ls s, irun (ientered c) ls = Some s -> ii_phase_closed s = true.
+Proof. intros c ls s R. exact (iinv_all ii_phase_closed all_ii_phase_closed c ls s R). Qed.
+Theorem c08_interleaved_no_task_dies : forall c ls s, irun (ientered c) ls = Some s -> ii_alive s = true /\ v_fuel (gs s) = false.
+Proof. intros c ls s R. split; [exact (iinv_all ii_alive all_ii_alive c ls s R)|].
+  pose proof (iinv_all ii_fuel all_ii_fuel c ls s R) as I. unfold ii_fuel in I. now apply negb_true_iff in I. Qed.
+(* 'a reset always lands in IDLE with no facade, spa or descriptors' is FALSE once handlers may be suspended (finding K10): a user
+   reset suspended in its RUNNING_SPA_DISCONNECTED delivery while the pump's own reset completes and the pump discovers again
+   returns with the new descriptors in place - state IDLE, descriptors present, which no branch of the pump leaves *)
+Theorem c08_reset_lands_idle_empty_refuted_under_interleaving :
+  option_map (fun s => (v_reset_dirty s, stuck_idle s)) (irun (ientered true) w_k10) = Some (true, true).
+Proof. exact k10_witness. Qed.
+Example c08_interleaved_nonvacuous : Nat.ltb 5000 (List.length ireach) = true.
+Proof. exact ireach_size. Qed.
 
 Example c08_nonvacuous : existsb (fun s => sstate_eqb (st s) CONNECTED) reach = true /\
   existsb (fun s => sstate_eqb (st s) ERROR_RF_FAULT) reach = true /\ Nat.ltb 100 (List.length reach) = true.
